@@ -175,6 +175,165 @@ def exhaustive_scenarios(ck, lay):
     return out
 
 
+# ------------------------------------------------------------------ keyrings mutated while in use (histories)
+H_TOPICS = ["com.myapp.topic1", "com.myapp.secret.topic"]
+H_PROCS = ["com.myapp.proc1", "com.other.x"]
+H_PREFIXES = ["", "com.myapp.", "com.myapp.secret.", "com.other.", "com.myapp.proc1"]
+H_PAIRS = [(1, 2), (3, 4), (5, 6)]
+EMPTY_RING = {"default": None, "keys": []}
+
+
+def gen_history(rng, i):
+    """the SAME two sessions / KeyRing objects through 6-14 steps: set_key (add, replace, remove, default, shadowing
+    prefix; on both sides or on one) interleaved with publish / call (result or error) on a small URI set, and with
+    re-deliveries of earlier ciphertexts"""
+    if rng.random() < 0.6:
+        A, B = dict(EMPTY_RING), dict(EMPTY_RING)
+    else:
+        A, B = ring(K(opriv=1, rpub=2)), ring(K(opub=1, rpriv=2))
+    ops = []
+    def msg_op():
+        r = rng.random()
+        args = [rng.choice(PLAIN_VALUES) for _ in range(rng.choice([0, 1, 2]))]
+        kwargs = [[k, rng.choice(PLAIN_VALUES)] for k in rng.sample(KEYS, rng.choice([0, 0, 1]))]
+        if r < 0.40:
+            return ["pub", rng.randrange(len(H_TOPICS)), args, kwargs]
+        if r < 0.75:
+            if rng.random() < 0.65:
+                ra = [rng.choice(PLAIN_VALUES[1:])]
+                how = {"result": {"args": ra, "kwargs": None}}
+            else:
+                how = {"exc": {"error": rng.choice(["com.myapp.error1", "com.other.error"]),
+                               "args": [rng.choice(PLAIN_VALUES)], "kwargs": []}}
+            return ["call", rng.randrange(len(H_PROCS)), args, kwargs, how]
+        return [rng.choice(["redeliver_pub", "redeliver_call"]), rng.randrange(8)]
+    ops.append(msg_op()); ops.append(msg_op())                 # the URIs are used BEFORE the first set_key
+    for _ in range(rng.randrange(4, 12)):
+        if rng.random() < 0.35:
+            prefix = rng.choice(H_PREFIXES)
+            if rng.random() < 0.25:
+                ko = kr = None                                                    # remove
+            else:
+                a, b = rng.choice(H_PAIRS)
+                ko, kr = K(opriv=a, rpub=b), K(opub=a, rpriv=b)
+            side = rng.random()
+            if side < 0.7:
+                ops.append(["set", "A", prefix, ko]); ops.append(["set", "B", prefix, kr])
+            elif side < 0.85:
+                ops.append(["set", "A", prefix, ko])
+            else:
+                ops.append(["set", "B", prefix, kr])
+        else:
+            ops.append(msg_op())
+    ops.append(msg_op()); ops.append(["pub", 0, [6], []]); ops.append(["call", 0, [7], [], {"result": {"args": [6], "kwargs": None}}])
+    return {"layout": "history", "kind": "history", "ser": ["json", "msgpack", "cbor"][i % 3], "A": A, "B": B,
+            "topics": H_TOPICS, "procs": H_PROCS, "ops": ops, "fault1": None, "fault2": None}
+
+
+def sets_before(sc, side, n):
+    """the set_key calls on one side among the first n set ops of the history"""
+    out, seen = [], 0
+    for op in sc["ops"]:
+        if op[0] != "set":
+            continue
+        if seen >= n:
+            break
+        seen += 1
+        if op[1] == side:
+            out.append((op[2], op[3]))
+    return out
+
+
+def ring_now(base, sets):
+    """independent replay of set_key: a dict prefix -> key, "" = default"""
+    d = {p: k for p, k in base["keys"]}
+    default = base["default"]
+    for p, k in sets:
+        if p == "":
+            default = k
+        elif k is None:
+            d.pop(p, None)
+        else:
+            d[p] = k
+    return {"default": default, "keys": [[p, k] for p, k in d.items()]}
+
+
+def history_leg_sides(sc, leg):
+    """(sender side, sender sets, receiver side, receiver sets, sender originating?, lookup uri)"""
+    if leg["leg"] in ("publish_event", "call_invocation"):
+        return "A", sets_before(sc, "A", leg["sets_at_seal"]), "B", sets_before(sc, "B", leg["sets_at_recv"]), True, leg["uri"]
+    uri = leg["error_uri"] if leg["leg"] == "error" else leg["uri"]
+    return "B", sets_before(sc, "B", leg["sets_at_recv"]), "A", sets_before(sc, "A", leg["sets_at_recv"]), False, uri
+
+
+def history_terms(sc, legs):
+    out = []
+    for li, leg in enumerate(legs):
+        o = cout(leg["outcomes"][0][0])
+        if o is None:
+            continue
+        ss, ssets, rs, rsets, orig, uri = history_leg_sides(sc, leg)
+        S, R = cring(sc[ss] or EMPTY_RING, ssets), cring(sc[rs] or EMPTY_RING, rsets)
+        enc = "true" if leg["encrypted"] else "false"
+        args, kwargs = leg["sent"]
+        if leg["leg"] == "publish_event":
+            l = "(LPublishEvent %s %s %s %s %s NoFault false [%s])" % (S, R, cstr(uri), clist(cval(a) for a in args), ckw(kwargs), cN(1))
+        elif leg["leg"] == "call_invocation":
+            l = "(LCallInvocation %s %s %s %s %s NoFault)" % (S, R, cstr(uri), clist(cval(a) for a in args), ckw(kwargs))
+        elif leg["leg"] == "yield_result":
+            l = "(LYieldResult %s %s %s %s false %s %s NoFault)" % (
+                S, R, cstr(uri), "true" if leg["call_encrypted"] else "false", clist(cval(a) for a in args), copt(kwargs, ckw))
+        else:
+            l = "(LError %s %s %s (Some %s) (Some %s) NoFault [] [])" % (S, R, cstr(uri), clist(cval(a) for a in args), ckw(kwargs or []))
+        out.append((li, "(%s, %s, %s)" % (l, enc, o)))
+    return out
+
+
+def judge_history(sc, res):
+    """oracle over a history: every message must behave as the CURRENT keyrings say (independent replay of set_key)"""
+    v = []
+    if res.get("driver_error"):
+        return [("driver/" + res["driver_error"].split(":")[0], res["driver_error"] + " " + res.get("tb", "")[-300:])]
+    for leg in res["legs"]:
+        name = leg["leg"]
+        ss, ssets, rs, rsets, orig, uri = history_leg_sides(sc, leg)
+        sbox = box_of(ring_now(sc[ss] or EMPTY_RING, ssets), orig, uri)
+        rbox = box_of(ring_now(sc[rs] or EMPTY_RING, rsets), not orig, uri)
+        o = leg["outcomes"][0][0]
+        hist = f"op #{leg['op']} of {[op[0] + ':' + str(op[1]) for op in sc['ops']]}"
+        if o[0] == "raised":
+            v.append((f"history/{name}/ESCAPED/{o[1]}", f"{o[1]} escaped from onMessage ({hist})")); continue
+        if leg["encrypted"] and (leg["clear_fields"] or leg["leak"]):
+            v.append((f"history/{name}/clear-payload-next-to-ciphertext", hist))
+        want_enc = sbox is not None and (name != "yield_result" or leg["call_encrypted"])
+        if want_enc and not leg["encrypted"]:
+            v.append((f"history/{name}/sent-in-clear-although-a-key-now-applies",
+                      f"the sender's keyring currently maps {uri} to secret {sbox} (after its set_key calls {ssets}) but the "
+                      f"payload went out in the clear ({hist})"))
+            continue
+        if leg["encrypted"] and sbox is None:
+            v.append((f"history/{name}/encrypted-although-no-key-applies-any-more",
+                      f"the key for {uri} was removed by set_key but the message is still encrypted ({hist})"))
+            continue
+        delivered = (o[0] == "handlers" and o[1]) or o[0] == "invoked"
+        got = ([o[1][0][1], o[1][0][2]] if o[0] == "handlers" and o[1] else [o[1], o[2]]) if delivered else None
+        want = [list(leg["sent"][0]), [list(p) for p in (leg["sent"][1] or [])]]
+        exact = delivered and got[0] == want[0] and sorted(map(tuple, got[1])) == sorted(map(tuple, want[1]))
+        if leg["encrypted"]:
+            if sbox != rbox:
+                if delivered:
+                    v.append((f"history/{name}/ciphertext-under-replaced-or-wrong-key-accepted",
+                              f"sealed under secret {sbox}, the receiver's CURRENT key for {uri} gives {rbox} (its set_key calls: "
+                              f"{rsets}), but the payload was delivered: {o} ({hist})"))
+                elif name != "publish_event" and not (o[0] == "failed" and o[1] in ENC_URIS):
+                    v.append((f"history/{name}/no-explicit-encryption-error", f"{o} ({hist})"))
+            elif not exact:
+                v.append((f"history/{name}/roundtrip", f"current keys pair up ({sbox}); sent {want}, got {o} ({hist})"))
+        elif not exact:
+            v.append((f"history/{name}/plain-roundtrip", f"no key applies; sent {want}, got {o} ({hist})"))
+    return v
+
+
 # ------------------------------------------------------------------ Coq terms
 _STRS, _NUMS = {}, set()
 
@@ -217,10 +376,11 @@ def cks(k):
     return "(mkKS %s %s %s %s)" % tuple(copt(k[f], cN) for f in ("opriv", "opub", "rpriv", "rpub"))
 
 
-def cring(r):
+def cring(r, sets=()):
     if r is None:
         return "None"
-    return "(Some (mkRS %s %s))" % (copt(r["default"], cks), clist("(%s, %s)" % (cstr(p), cks(k)) for p, k in r["keys"]))
+    return "(Some (mkRS %s %s %s))" % (copt(r["default"], cks), clist("(%s, %s)" % (cstr(p), cks(k)) for p, k in r["keys"]),
+                                       clist("(%s, %s)" % (cstr(p), copt(k, cks)) for p, k in sets))
 
 
 def cfault(f):
@@ -252,6 +412,8 @@ def cout(o):
 
 def leg_terms(sc, legs):
     """one Coq case per observed leg (the unique outcome of the leg); -> list of (leg index, term)"""
+    if sc.get("kind") == "history":
+        return history_terms(sc, legs)
     out = []
     call_enc = None
     for li, leg in enumerate(legs):
@@ -289,6 +451,8 @@ def leg_terms(sc, legs):
 
 # ------------------------------------------------------------------ property oracle (from the property text)
 def judge(sc, res):
+    if sc.get("kind") == "history":
+        return judge_history(sc, res)
     v = []
     if res.get("driver_error"):
         return [("driver/" + res["driver_error"].split(":")[0], res["driver_error"] + " " + res.get("tb", "")[-300:])]
@@ -414,7 +578,10 @@ def run(ck):
         "both roles, per-prefix, nested prefixes in two insertion orders, codec on one side only, wrong responder key, "
         "wrong originator public key, role-mismatched material, prefix mismatch, diverging inner prefix) x direction "
         "(publish/event, call/invocation, yield/result final+progressive, error) x fault (none, one flipped octet, URI "
-        "swap, enc_serializer/enc_algo changed, truncated, extended) + EVERY single-octet alteration of one ciphertext per "
+        "swap, enc_serializer/enc_algo changed, truncated, extended) + HISTORIES (40 quick / 600 thorough per framework): the "
+        "same two sessions and KeyRing objects through 8-16 steps of set_key (add, replace, remove, default key, shadowing "
+        "prefix, on both sides or one) interleaved with publish / call+result / call+error on 4 URIs and re-deliveries of "
+        "earlier ciphertexts, every message judged against the CURRENT keyrings + EVERY single-octet alteration of one ciphertext per "
         "direction (quick: mask 0x01, 1 layout; thorough: masks 0x01/0x80/0xff, 4 layouts x 2 serializers); 70% of the error "
         "scenarios (and a dedicated sweep under every fault kind) have exception classes (accept-anything / no-keywords / "
         "no-arguments constructors) registered AT THE CALLER for the error URI and for the swapped URI. "
@@ -440,7 +607,9 @@ def run(ck):
     per_fw = {}
     for fw in ("tx", "aio"):
         rng = ck.rng("gen/" + fw)
-        per_fw[fw] = corpus + exhaustive_scenarios(ck, lay) + [gen_scenario(rng, i, lay) for i in range(n)]
+        hrng = ck.rng("hist/" + fw)
+        per_fw[fw] = corpus + exhaustive_scenarios(ck, lay) + [gen_scenario(rng, i, lay) for i in range(n)] + \
+            [gen_history(hrng, i) for i in range(40 if ck.quick() else 600)]
     results = {"tx": {}, "aio": {}}
     with concurrent.futures.ThreadPoolExecutor(8) as ex:
         jobs = []
@@ -506,7 +675,30 @@ def run(ck):
         ck.log("proof obligations broken; the oracle found no failing input in this run")
 
 
+def shrink_history(ck, fw, sc, key):
+    cur = sc
+    for _ in range(6):
+        cands = []
+        for j in range(len(cur["ops"])):
+            c = copy.deepcopy(cur); c["ops"].pop(j); cands.append(c)
+        acc = copy.deepcopy(cur)
+        for j in reversed(range(len(cur["ops"]))):
+            acc = copy.deepcopy(acc); acc["ops"].pop(j) if j < len(acc["ops"]) else None
+            cands.append(copy.deepcopy(acc))
+        cands = [c for c in cands if c["ops"]]
+        if not cands:
+            break
+        res = run_fw(ck, fw, cands)
+        alive = [c for c, o in zip(cands, res) if any(k == key for k, _ in judge(c, o))]
+        if not alive:
+            break
+        cur = min(alive, key=lambda c: len(c["ops"]))
+    return cur
+
+
 def shrink(ck, fw, sc, key):
+    if sc.get("kind") == "history":
+        return shrink_history(ck, fw, sc, key)
     cur = sc
     for _ in range(3):
         cands = []
